@@ -138,21 +138,48 @@ fn recover_body(img: Image, opts: OptsSpec, candidates: Vec<Model>, extra: Optio
         });
         let mut all: Vec<Vec<Violation>> = Vec::new();
         let mut panicked = false;
+        // panics of database threads seen while the content was read (a background flush dying,
+        // say) are reported in their own right; which candidate the content matches is judged on
+        // the content
+        let mut panic_vs: Vec<Violation> = Vec::new();
+        let mut unreadable = false;
         for (ci, cand) in candidates.iter().enumerate() {
             env.model = cand.clone();
-            env.violations.clear();
-            env.check_all(&format!("{label}: recovered content vs {}", if ci == 0 { "acknowledged requests" } else { "acknowledged + the request in flight" }));
-            if env.violations.is_empty() {
+            // a read during which a database thread panicked (a background flush dying, a query
+            // racing it) says nothing about the content: read again, up to three times
+            let mut c: Vec<Violation> = Vec::new();
+            let mut clean_read = false;
+            for _attempt in 0..3 {
+                env.violations.clear();
+                env.check_all(&format!("{label}: recovered content vs {}", if ci == 0 { "acknowledged requests" } else { "acknowledged + the request in flight" }));
+                let (p, rest): (Vec<Violation>, Vec<Violation>) = env.violations.drain(..).partition(|v| v.class.starts_with("panic:"));
+                let saw_panic = !p.is_empty();
+                for v in p {
+                    if !panic_vs.iter().any(|x| x.class == v.class) {
+                        panic_vs.push(v);
+                    }
+                }
+                c = rest;
+                if !saw_panic || c.is_empty() {
+                    clean_read = true;
+                    break;
+                }
+            }
+            if !clean_read {
+                unreadable = true;
+                break;
+            }
+            if c.is_empty() {
                 recovered_as = Some(ci);
                 break;
             }
-            if env.violations.iter().any(|v| v.class.starts_with("panic:")) {
-                // a database thread died while the content was read: that, not a content
-                // divergence, is what happened here
-                panicked = true;
-                break;
-            }
-            all.push(env.violations.clone());
+            all.push(c);
+        }
+        if unreadable {
+            // a database thread died every time the content was read: that, not a content
+            // divergence, is what happened here
+            panicked = true;
+            env.violations = panic_vs.clone();
         }
         if panicked {
             exec::drop_echoes(&mut env.violations);
@@ -168,6 +195,8 @@ fn recover_body(img: Image, opts: OptsSpec, candidates: Vec<Model>, extra: Optio
                 }
                 x
             }).collect();
+            // (the panics seen meanwhile are reported in their own right)
+            env.violations.extend(panic_vs.clone());
         } else {
             // (a) recovering the recovered directory again changes nothing
             if env.restart() {
@@ -193,6 +222,9 @@ fn recover_body(img: Image, opts: OptsSpec, candidates: Vec<Model>, extra: Optio
                     v.class = prefixed("crash_after_recovery", &v.class);
                 }
             }
+        }
+        if recovered_as.is_some() {
+            env.violations.extend(panic_vs);
         }
         if env.db.is_some() {
             env.close();
